@@ -16,9 +16,10 @@ import threading
 from . import thr2_ctl as tc
 
 OPS = ["merge", "merge_all", "merge_maxc", "flat_map", "zip", "combine_latest", "with_latest_from", "amb",
-       "window_time", "window_toc"]
+       "window_time", "window_toc", "window_count", "buffer_time"]
 HIGHER = ("merge_all", "merge_maxc", "flat_map")
-WINDOW = ("window_time", "window_toc")
+WINDOW = ("window_time", "window_toc", "window_count", "buffer_time")  # source thread 0 (+ timer thread 1)
+NO_TIMER = ("window_count",)  # single source, no timer: only one thread ever reaches the operator
 
 # files whose lines are yield points, per combinator (plus the lock wrapper and the downstream observer)
 OP_FILES = {
@@ -32,6 +33,8 @@ OP_FILES = {
     "amb": ["reactivex/operators/_amb.py"],
     "window_time": ["reactivex/operators/_windowwithtime.py"],
     "window_toc": ["reactivex/operators/_windowwithtimeorcount.py"],
+    "window_count": ["reactivex/operators/_windowwithcount.py"],
+    "buffer_time": ["reactivex/operators/_windowwithtime.py", "reactivex/operators/_merge.py", "reactivex/operators/_bufferwithtime.py"],
 }
 COMMON_FILES = ["reactivex/internal/concurrency.py", "reactivex/observer/autodetachobserver.py"]
 
@@ -193,6 +196,10 @@ def build(op, nthreads, ctl, params=None):
         if op == "window_time":
             shift = params.get("shift")
             obs = src.pipe(ops.window_with_time(1.0, shift, scheduler=sched))
+        elif op == "window_count":
+            obs = src.pipe(ops.window_with_count(params.get("count", 2), params.get("skip")))
+        elif op == "buffer_time":
+            obs = src.pipe(ops.buffer_with_time(1.0, scheduler=sched))
         else:
             obs = src.pipe(ops.window_with_time_or_count(1.0, params.get("count", 2), scheduler=sched))
 
@@ -205,7 +212,7 @@ def build(op, nthreads, ctl, params=None):
             else:
                 sched.fire()
 
-        drivers = [drive_subject(src), dt]
+        drivers = [drive_subject(src)] if op in NO_TIMER else [drive_subject(src), dt]
         sources = [src]
     else:
         subs = [Subject() for _ in range(nthreads)]
@@ -342,6 +349,35 @@ def run_sequential(case, order, fired=()):
                 item = ["T", -1 if fired[j] is None else fired[j]]
             drivers[k](item)
     return downstream(_jsonable(ctl.log))
+
+
+def run_seq_calls(op, order, outer, inners):
+    """merge_all / flat_map single-threaded: handlers in the given order (thread 0 = outer, k+1 = inner k);
+    returns the calls made on the downstream observer and the callbacks entered (kinds)."""
+    nthreads = 1 + len(inners)
+    ctl = tc.Controller([], first=0)
+    ctl.role_fn = _role_fn(op)
+    shared = {"active": {}, "max": 0, "windows": None}
+    rec = Recorder(ctl, shared)
+    pos = [0] * nthreads
+    scripts = [outer] + inners
+    restore = None
+    try:
+        with tc.setup(ctl):
+            obs, drivers, sources, sched = build(op, max(nthreads, 2), ctl, None)
+            restore = _patch_ado_calls(ctl, rec)
+            obs.subscribe(rec.on_next, rec.on_error, rec.on_completed)
+            for t in order:
+                if pos[t] < len(scripts[t]):
+                    item = scripts[t][pos[t]]
+                    pos[t] += 1
+                    drivers[t](item)
+    finally:
+        if restore:
+            restore()
+    calls = [e[2] for e in ctl.log if len(e) == 3 and e[1] == "call"]
+    delivered = [e[3] for e in ctl.log if len(e) >= 4 and e[1] == "enter"]
+    return calls, delivered
 
 
 def downstream(log):
